@@ -285,6 +285,27 @@ func main() {
 					return true
 				})
 				e.Strs("protoDocsPairing", st, "makeProtoDocs: loop and assignments (pairing by position)")
+				// the loop must produce one Document per ID: no break / continue / return inside it, no append
+				var exits []string
+				ast.Inspect(fd.Body, func(n ast.Node) bool {
+					if rs, ok := n.(*ast.RangeStmt); ok {
+						ast.Inspect(rs.Body, func(m ast.Node) bool {
+							switch x := m.(type) {
+							case *ast.BranchStmt:
+								exits = append(exits, x.Tok.String())
+							case *ast.ReturnStmt:
+								exits = append(exits, "return")
+							case *ast.CallExpr:
+								if a.Render(x.Fun) == "append" {
+									exits = append(exits, "append")
+								}
+							}
+							return true
+						})
+					}
+					return true
+				})
+				e.Strs("protoDocsLoopExits", exits, "makeProtoDocs: break / continue / return / append inside the loop over qpr.IDs (none: one slot per ID)")
 			}
 		}
 		idFromDoc := func(rel, recv, fn, name string) {
